@@ -927,11 +927,18 @@ fn run_one<T: Tagged>(pid: &str, cap: &str, threads: &[(usize, Vec<String>)], sp
         let s = g.as_mut().unwrap();
         hand_over(s, 0);
         // wait for the end of the execution: everybody done, or stuck
+        // (the real-time watchdog looks at progress, not at duration: an execution is given up only when no
+        // scheduling step has happened for six seconds - a thread spinning without ever reaching the scheduler)
+        let mut last_steps = 0u64;
         while !g.as_ref().unwrap().stuck && !g.as_ref().unwrap().state.iter().all(|x| *x == TS::Done) {
             let (g2, to) = CV.wait_timeout(g, Duration::from_secs(6)).unwrap();
             g = g2;
             if to.timed_out() {
                 let s = g.as_mut().unwrap();
+                if s.steps != last_steps {
+                    last_steps = s.steps;
+                    continue;
+                }
                 s.stuck = true;
                 s.overrun = true;
                 s.current = NONE;
